@@ -156,9 +156,7 @@ theorem proj_deliver (g : GCluster) (j idx : Nat) :
     | none => simp [GCluster.proj]
     | some m =>
       simp only [Option.map_some]
-      split
-      · rfl
-      · simp only [GCluster.proj, List.map_set, deliver_eq]
+      simp only [GCluster.proj, List.map_set, deliver_eq]
 
 theorem proj_init (n : Nat) (causal : Bool) : (GCluster.init n causal).proj = Cluster.init n causal := by
   simp only [GCluster.proj, GCluster.init, Cluster.init, List.map_map]
@@ -245,17 +243,14 @@ theorem step_ok {g : GCluster} (h : AllInv g) (e : GEv) (hs : gunsupported g e =
       | none => exact h
       | some m =>
         simp only
-        split
-        · exact h
-        · rename_i hne
-          have hnd : GInv nd := h nd (List.mem_of_getElem? hn)
-          have hu : unsupported nd (.deliver m.key m.val) = none := by
-            simp only [gunsupported, hn, hm, hne, if_false] at hs
-            exact hs
-          intro x hx
-          rcases Cluster.mem_set hx with hx | hx
-          · subst hx; exact ginv_deliver hnd _ _ hu
-          · exact h x hx
+        have hnd : GInv nd := h nd (List.mem_of_getElem? hn)
+        have hu : unsupported nd (.deliver m.key m.val) = none := by
+          simp only [gunsupported, hn, hm] at hs
+          exact hs
+        intro x hx
+        rcases Cluster.mem_set hx with hx | hx
+        · subst hx; exact ginv_deliver hnd _ _ hu
+        · exact h x hx
   | client i c =>
     have hone : ∀ c', (c' = c) → (∀ ks, c' = .del ks → ¬ ks.length > 1) →
         AllInv (g.clientOne i c') ∧ ∃ evs : List Ev, (g.clientOne i c').proj = g.proj.run evs := by
@@ -276,6 +271,57 @@ theorem step_ok {g : GCluster} (h : AllInv g) (e : GEv) (hs : gunsupported g e =
     | _ =>
       simp only [GCluster.step, splitCmd, List.foldl_cons, List.foldl_nil]
       exact hone _ rfl (fun ks hk => by cases hk)
+
+/-- the per-pair SETs of a split MSET (repaired front end): every one is a recorded command -/
+theorem fold_single_sets (i : Nat) (kvs : List (Nat × Redis.BS)) : ∀ g : GCluster, AllInv g →
+    AllInv ((kvs.map (fun p => Cmd.set p.1 p.2 .always .none false)).foldl (fun g c' => g.clientOne i c') g) ∧
+    ∃ evs : List Ev,
+      ((kvs.map (fun p => Cmd.set p.1 p.2 .always .none false)).foldl (fun g c' => g.clientOne i c') g).proj
+        = g.proj.run evs := by
+  induction kvs with
+  | nil => intro g h; exact ⟨h, [], rfl⟩
+  | cons p kvs ih =>
+    intro g h
+    simp only [List.map_cons, List.foldl_cons]
+    have h1 := allinv_clientOne h i (.set p.1 p.2 .always .none false) (fun nd _ => by simp [unsupported, recorded])
+    obtain ⟨evs1, hp1⟩ := proj_clientOne g i (.set p.1 p.2 .always .none false) (fun nd _ ks' hc => by cases hc)
+    obtain ⟨h2, evs2, hp2⟩ := ih _ h1
+    refine ⟨h2, evs1 ++ evs2, ?_⟩
+    rw [hp2, hp1]
+    simp only [Cluster.run, List.foldl_append]
+
+/-- one step of the REPAIRED front end: an MSET is always inside the fragment (its SETs are
+    recorded commands); every other event as `step_ok` -/
+theorem step_fixed_ok {g : GCluster} (h : AllInv g) (e : GEv)
+    (hs : (∀ i kvs, e ≠ .client i (.mset kvs)) → gunsupported g e = none) :
+    AllInv (g.stepFixed e) ∧ ∃ evs : List Ev, (g.stepFixed e).proj = g.proj.run evs := by
+  cases e with
+  | deliver j idx =>
+    have := step_ok h (.deliver j idx) (hs (fun _ _ hc => by cases hc))
+    simpa [GCluster.stepFixed] using this
+  | client i c =>
+    cases c with
+    | mset kvs =>
+      simp only [GCluster.stepFixed, splitCmdFixed]
+      exact fold_single_sets i kvs g h
+    | _ =>
+      have := step_ok h (.client i _) (hs (fun _ _ hc => by cases hc))
+      simpa [GCluster.stepFixed, splitCmdFixed, GCluster.step] using this
+
+/-- a restarted actor satisfies the node invariant (it serves nothing and knows nothing), and the
+    replication-state layer of the restarted cluster is the layer-1 restart -/
+theorem restart_ok {g : GCluster} (h : AllInv g) (i : Nat) :
+    AllInv (g.restart i) ∧ (g.restart i).proj = g.proj.restart i := by
+  simp only [GCluster.restart, Cluster.restart, proj_nodes_get]
+  cases hn : g.nodes[i]? with
+  | none => exact ⟨h, rfl⟩
+  | some nd =>
+    refine ⟨?_, ?_⟩
+    · intro x hx
+      rcases Cluster.mem_set hx with hx | hx
+      · subst hx; exact ginv_init _ _
+      · exact h x hx
+    · simp [GCluster.proj, List.map_set, Node.init]
 
 theorem run_proj (hist : List GEv) : ∀ (g : GCluster), AllInv g → GSupported g hist →
     AllInv (g.run hist) ∧ ∃ evs : List Ev, (g.run hist).proj = g.proj.run evs := by
